@@ -387,12 +387,15 @@ class TSTransceiver(Elaboratable):
         # Ordered set generators
         #
 
+        # Each generator is held in reset while it isn't selected; so a burst that's abandoned part-way
+        # through isn't resumed from the middle of an ordered set the next time that generator is used.
+
         # TSEQ generator
-        m.submodules.tseq_generator = tseq_generator = TSEmitter(
+        m.submodules.tseq_generator = tseq_generator = ResetInserter({"ss": ~self.send_tseq_burst})(TSEmitter(
             set_data              = TSEQ_SET_DATA,
             first_word_ctrl       = 0b0001,
             transmit_burst_length = 65536
-        )
+        ))
         with m.If(self.send_tseq_burst):
             m.d.comb += [
                 tseq_generator.start .eq(1),
@@ -400,10 +403,10 @@ class TSTransceiver(Elaboratable):
             ]
 
         # TS1 generator
-        m.submodules.ts1_generator = ts1_generator = TSEmitter(
+        m.submodules.ts1_generator = ts1_generator = ResetInserter({"ss": ~self.send_ts1_burst})(TSEmitter(
             set_data              = TS1_SET_DATA,
             transmit_burst_length = 16
-        )
+        ))
         with m.If(self.send_ts1_burst):
             m.d.comb += [
                 ts1_generator.start  .eq(1),
@@ -411,11 +414,11 @@ class TSTransceiver(Elaboratable):
             ]
 
         # TS2 Generator
-        m.submodules.ts2_generator = ts2_generator = TSEmitter(
+        m.submodules.ts2_generator = ts2_generator = ResetInserter({"ss": ~self.send_ts2_burst})(TSEmitter(
             set_data              = TS2_SET_DATA,
             transmit_burst_length = 16,
             include_config        = True,
-        )
+        ))
         with m.If(self.send_ts2_burst):
             m.d.comb += [
                 ts2_generator.start                 .eq(1),
